@@ -3,6 +3,7 @@ from typing import Any
 from fastapi import APIRouter, Query, Request
 from fastapi.responses import HTMLResponse, JSONResponse
 
+from pynenc.exceptions import InvocationNotFoundError
 from pynmon.app import get_pynenc_instance, templates
 
 router = APIRouter(prefix="/broker", tags=["broker"])
@@ -42,14 +43,14 @@ async def queue_view(
     pending_invocations = []
     queue_size = app.broker.count_invocations()
 
-    # Warning: This operation has overhead as we retrieve and re-queue messages
-    for _ in range(min(limit, queue_size)):
-        if invocation_id := app.broker.retrieve_invocation():
+    # Look at the head of the queue without consuming it: serving a page must not
+    # reorder the queue or lose messages.
+    for invocation_id in app.broker.peek_invocations(limit):
+        try:
             pending_invocations.append(app.state_backend.get_invocation(invocation_id))
-
-    for invocation in pending_invocations:
-        # Re-route the invocation back to the broker
-        app.broker.route_invocation(invocation.invocation_id)
+        except InvocationNotFoundError:
+            # A queued id whose stored record was purged: nothing to display for it.
+            continue
 
     return templates.TemplateResponse(
         request,
